@@ -311,6 +311,9 @@ def fault_steps(prog, sched, level):
         if fs:
             st["faults" if level == "iface" else "dfaults"] = fs
         steps.append(st)
+        if fs:
+            # the caller does what callers do after a storage error: the very same request again, at once, with the store working
+            steps.append({"op": "update", "log": op["log"], "req": op["req"]})
     return steps, sum(len(f) for f in faults)
 
 
